@@ -162,6 +162,13 @@ def cases(tier, rng):
                 yield Case("chords.from_shorthand", [r + j], "unknown", kind=("unknown",))
     for bad in ["H", "c", "x7", "1", " C", "#C", "bC", "mC", "-7", "maj7", "/G", "|C", "h", "é"]:
         yield Case("chords.from_shorthand", [bad], "badroot", kind=("badroot",))
+    # a full stop belongs to 'N.C.' and to nothing else: inside, before or behind any other shorthand it is malformed
+    for r in ("C", "F#", "Bb"):
+        for k in ("", "m", "7", "m7", "M7", "dim", "sus4", "6/9", "m/M7", "7b9"):
+            for x in (r + k + ".", r + "." + k, "." + r + k, r + k[:1] + "." + k[1:], r + k + "./G", r + k + "/G.", r + k + "|.C"):
+                yield Case("chords.from_shorthand", [x], "malformed/full-stop", kind=("random",))
+    for x in ("N.C", "NC.", "N.C..", ".NC", "N..C.", "N.C./G", "C|N.C."):
+        yield Case("chords.from_shorthand", [x], "malformed/full-stop", kind=("random",))
     for _ in range(400 if tier == "quick" else 4000):
         x = rng.choice(LETTERS + "Hc") + "".join(rng.choice(alpha) for _ in range(rng.randint(0, 8)))
         yield Case("chords.from_shorthand", [x], "random", kind=("random",))
